@@ -144,7 +144,7 @@ def tlc(spec_dir, module, cfg, work, tag, workers=16, extra=None, env=None, time
         for f in os.listdir(root):
             if f.endswith(".tla") or f.endswith(".cfg"):
                 shutil.copy(os.path.join(root, f), d)
-    cmd = ["java", "-Xmx" + heap, "-XX:+UseParallelGC"]
+    cmd = ["java", "-Xmx" + heap, "-Xss512m", "-XX:+UseParallelGC"]
     e = dict(os.environ)
     if env:
         e.update(env)
